@@ -30,7 +30,7 @@ TRUSTED = [
 K3_TEXT = ("C20/K3 a TURN server that keeps answering 438 Stale Nonce (or 401 with a changing realm) is retried for ever: gathering "
            "completion is never announced while the server answers (agent/conncheck.c priv_map_reply_to_relay_request, no retry cap)")
 BEH_STUN = "dsSleEgx6"       # per-request behaviours for a STUN server
-BEH_TURN = "daeErgxmnu"      # for a TURN server ('a' = 401 then signed success)
+BEH_TURN = "daeErgxmnuR"      # for a TURN server ('a' = 401 then signed success)
 
 
 def completion_oracles(ev, done_t, cands, servers, rc, rto):
@@ -96,8 +96,11 @@ def completion_oracles(ev, done_t, cands, servers, rc, rto):
                                                      f"t={a[0]} (before completion at t={done_t}) supplying {sorted(want)}, but no "
                                                      f"server-reflexive candidate with that address exists for component {comp}"))
         elif kind_of.get(r["dst"]) == "turn" and r["method"] == "3" and r["dst"] not in redirected:
-            if behs and all(b in "sSl" and au == 1 for b, au, _, _ in behs):
-                want = {r["dst"].split(":")[0] + ":"}
+            if behs and all(b in "sSlR" and au == 1 for b, au, _, _ in behs):
+                want = {r["dst"].split(":")[0] + ":"} if not any(b == "R" for b, _, _, _ in behs) else \
+                       {r["dst"].split(":")[0] + ":", "192.0.2." + r["dst"].split(":")[0].split(".")[-1] + ":"}
+                if all(b == "R" for b, _, _, _ in behs):
+                    want = {"192.0.2." + r["dst"].split(":")[0].split(".")[-1] + ":"}
                 if not any(c[0] == 3 and c[1] == comp and any(c[2].startswith(w) for w in want) for c in cands):
                     bad.append(("missing-candidate", f"the TURN server granted the authenticated allocation {txid[:8]}.. from {r['src']} at "
                                                      f"t={a[0]} (before completion at t={done_t}) with relayed address in {sorted(want)}, "
@@ -117,6 +120,8 @@ DIRECTED = [
     (2, 1, "6", ["a"], 0, 1),
     (1, 1, "ddd", [], 0, 1),           # silent server: full schedule, then completion
     (1, 1, "s", ["ra"], 0, 1),         # redirect to a silent alternate server
+    (1, 1, None, ["uR"], 0, 1),        # TURN server on the NAT gateway: relayed and mapped address share the IP
+    (1, 2, "s", ["uR"], 0, 5),
 ]
 
 
@@ -180,6 +185,41 @@ def gather_model_lines(ev, done_t, cands, servers):
                       f"done 1 rounds {len(behs)} cands {code if got and behs[-1].startswith('s:') else '-'}",
                       f"item {src}->{dst}"))
     return lines
+
+
+def edge_scenario(args):
+    """gathering runs in which a STUN server is configured but no local candidate is eligible for a server-reflexive query
+    (ICE-TCP only agent), with 1..2 components and 1..2 addresses: completion must still be announced exactly once"""
+    exe, seed, tier = args
+    import random
+    rng = random.Random(f"C20edge/{seed}")
+    s = simlib.Sim(exe)
+    bad = []
+    try:
+        ncomp, naddr = rng.randint(1, 2), rng.randint(1, 2)
+        s.op(f"net seed {seed}"); s.op("net latency 1 5")
+        s.op(f"server 127.0.0.50:3478 stun {rng.choice(['s', 'd', 'l'])}")
+        s.op("new A ctrl=1 compat=0 opts=0 rc=3 rto=500 icetcp=1 iceudp=0 addrs=" + ",".join(f"127.0.0.{i + 1}" for i in range(naddr)) +
+             " stunsrv=127.0.0.50:3478")
+        s.op(f"stream A {ncomp}")
+        s.op("attach A 1")
+        s.op("gather A 1")
+        s.op("settle 100")
+        s.op("run 6000")
+        dones = [e for e in s.events() if " gathering-done " in e]
+        if len(dones) != 1:
+            bad.append(("never-done" if not dones else "done-twice",
+                        f"ICE-TCP-only agent with a STUN server configured: gathering-done announced {len(dones)} times within 6 s"))
+        q = simlib.parse_q(s.op("q A 1 1")[1])
+        if not dones and q["state"] == "GATHERING":
+            bad.append(("never-done", "component still GATHERING"))
+        return dict(seed=seed, bad=bad, known=[], script=s.script, servers=[("stun", "127.0.0.50:3478", "-")], ncands=2,
+                    done_at=None, endless=None, glines=[])
+    except simlib.SimDied as e:
+        return dict(seed=seed, bad=[("crash", str(e)[-1500:])], known=[], script=s.script, servers=[], ncands=0, done_at=None,
+                    endless=None, glines=[])
+    finally:
+        s.close()
 
 
 def scenario(args):
@@ -284,6 +324,7 @@ def scenario(args):
                 supplied.add(f"192.0.2.{last}:{port}")       # mapped address rule of the scripted servers
                 supplied.add("[2001:db8::7]:4242"); supplied.add("2001:db8::7:4242")
                 supplied.add("relay:" + srv_ip)
+                supplied.add("relay:192.0.2." + last)          # behaviour R: relayed address on the mapped IP
         for t, comp, addr, base in cands:
             if t == 1 and addr not in supplied and not addr.startswith("2001:db8::7"):
                 bad.append(("unconfirmed-candidate", f"server-reflexive candidate {addr} was supplied by no success answer"))
@@ -294,7 +335,7 @@ def scenario(args):
         glines = []
         if dones and not endless:
             bad += completion_oracles(ev, dones[0], cands, servers, rc, rto)
-            if dup == 0 and not any("6" in sc_[2] for sc_ in servers):
+            if dup == 0 and not any("6" in sc_[2] or "R" in sc_[2] for sc_ in servers):
                 glines = gather_model_lines(ev, dones[0], cands, servers)
         return dict(seed=seed, bad=bad, known=known, script=s.script, servers=servers, ncands=len(cands),
                     done_at=(dones[0] - t0) if dones else None, endless=endless, glines=glines)
@@ -318,6 +359,7 @@ def run(tier, seed):
             n = 300 if tier == "quick" else 6000
             res = simlib.run_parallel(scenario, [(exe, ("directed", i), tier) for i in range(len(DIRECTED))] +
                                       [(exe, seed * 100000 + i, tier) for i in range(n)])
+            res += simlib.run_parallel(edge_scenario, [(exe, seed * 100000 + i, tier) for i in range(8 if tier == "quick" else 60)])
             kinds, behs = {}, {}
             k3 = None
             for r in res:
